@@ -152,7 +152,7 @@ def bind(chk: Check, tier: str, seed: int):
     chk.gate(with_ident > len(traces) // 2, f"only {with_ident} returned messages carried an identity")
     chk.gate(tier == "selftest" or inside >= 10, f"only {inside} claims arrived next to fast-packet frames of the same source")
     chk.add(messages_with_identity=with_ident, claims_next_to_fast_frames=inside)
-    chk.assumptions += ["NAMEs 1/2/3 are claims of Furuno / Maretron / an unknown manufacturer code; an unknown manufacturer "
+    chk.assumptions += ["NAMEs 1/2/3 are claims of Garmin / BEP Marine (two manufacturer numbers each) / an unknown manufacturer code; an unknown manufacturer "
                         "passes manufacturer lists (left unconstrained by the property)",
                         "the discovery window is driven by substituting decoder.datetime with a settable clock"]
 
